@@ -12,12 +12,12 @@ import (
 // agentModel resolves the roles of the Agent type from the code (by name first,
 // then by unique field type, so that unexported renames do not matter).
 type agentModel struct {
-	T        *types.Named
-	Mux      *types.Var
-	Tx       *types.Var
-	Closed   *types.Var
-	Handler  *types.Var
-	Methods  []*ssa.Function
+	T         *types.Named
+	Mux       *types.Var
+	Tx        *types.Var
+	Closed    *types.Var
+	Handler   *types.Var
+	Methods   []*ssa.Function
 	ErrClosed *ssa.Global
 }
 
@@ -120,12 +120,101 @@ func sharedAccesses(fn *ssa.Function, fields map[*types.Var]bool) []sharedAccess
 				if isMapType(fv.Type()) {
 					out = append(out, mapUses(y, fa.X, fv)...)
 				}
+				if _, isSl := fv.Type().Underlying().(*types.Slice); isSl {
+					out = append(out, sliceUses(y, fa.X, fv, map[ssa.Value]bool{})...)
+				}
 			case *ssa.DebugRef:
 			default:
 				out = append(out, sharedAccess{u, fa.X, fv, "addr"})
 			}
 		}
 	})
+	return out
+}
+
+// sliceUses follows a slice loaded from a protected field through reslices, phis, conversions and
+// appends onto it, and reports every access to its backing array (element loads/stores, append, copy,
+// escape into a call): the header is a private copy, the backing array is shared state.
+func sliceUses(sv ssa.Value, base ssa.Value, fv *types.Var, seen map[ssa.Value]bool) []sharedAccess {
+	if seen[sv] {
+		return nil
+	}
+	seen[sv] = true
+	var out []sharedAccess
+	refs := sv.Referrers()
+	if refs == nil {
+		return nil
+	}
+	for _, u := range *refs {
+		switch y := u.(type) {
+		case *ssa.Slice:
+			if y.X == sv {
+				out = append(out, sliceUses(y, base, fv, seen)...)
+			}
+		case *ssa.Phi:
+			out = append(out, sliceUses(y, base, fv, seen)...)
+		case *ssa.ChangeType:
+			out = append(out, sliceUses(y, base, fv, seen)...)
+		case *ssa.Convert:
+			out = append(out, sliceUses(y, base, fv, seen)...)
+		case *ssa.IndexAddr:
+			if y.X != sv {
+				continue
+			}
+			if rr := y.Referrers(); rr != nil {
+				for _, n := range *rr {
+					switch z := n.(type) {
+					case *ssa.UnOp:
+						if z.Op == token.MUL {
+							out = append(out, sharedAccess{z, base, fv, "elemread"})
+						}
+					case *ssa.Store:
+						if z.Addr == ssa.Value(y) {
+							out = append(out, sharedAccess{z, base, fv, "elemwrite"})
+						} else {
+							out = append(out, sharedAccess{z, base, fv, "addr"})
+						}
+					case *ssa.DebugRef:
+					default:
+						out = append(out, sharedAccess{n, base, fv, "addr"})
+					}
+				}
+			}
+		case *ssa.Call:
+			if b, ok := y.Call.Value.(*ssa.Builtin); ok {
+				switch b.Name() {
+				case "len", "cap":
+					// header only
+				case "append":
+					if y.Call.Args[0] == sv {
+						out = append(out, sharedAccess{y, base, fv, "elemwrite"})
+						out = append(out, sliceUses(y, base, fv, seen)...)
+					} else {
+						out = append(out, sharedAccess{y, base, fv, "elemread"})
+					}
+				case "copy":
+					if y.Call.Args[0] == sv {
+						out = append(out, sharedAccess{y, base, fv, "elemwrite"})
+					} else {
+						out = append(out, sharedAccess{y, base, fv, "elemread"})
+					}
+				default:
+					out = append(out, sharedAccess{y, base, fv, "addr"})
+				}
+			} else {
+				out = append(out, sharedAccess{y, base, fv, "addr"})
+			}
+		case *ssa.Store:
+			// stored somewhere: into the same object's field is a field store (counted there); elsewhere it escapes
+			if fa, ok := y.Addr.(*ssa.FieldAddr); ok && fa.X == base {
+				continue
+			}
+			out = append(out, sharedAccess{y, base, fv, "addr"})
+		case *ssa.BinOp, *ssa.DebugRef:
+		default:
+			out = append(out, sharedAccess{u, base, fv, "addr"})
+		}
+	}
 	return out
 }
 
@@ -174,7 +263,7 @@ func mapUses(mv ssa.Value, base ssa.Value, fv *types.Var) []sharedAccess {
 }
 
 func (a sharedAccess) isWrite() bool {
-	return a.Kind == "store" || a.Kind == "mapwrite" || a.Kind == "mapdelete" || a.Kind == "addr"
+	return a.Kind == "store" || a.Kind == "mapwrite" || a.Kind == "mapdelete" || a.Kind == "addr" || a.Kind == "elemwrite"
 }
 
 // handlerCalls: dynamic calls in fn whose callee value is a load of field fv (directly or via a local copy).
